@@ -173,8 +173,8 @@ def run_mode(mode, items, ops):
 def check(case):
     xs = expand(case['data'])
     op, km, mode = case['op'], case['km'], case['mode']
-    if op in ('fvariance', 'fstddev') and len(xs) > 300:
-        xs = xs[:300]
+    if op in ('fvariance', 'fstddev'):
+        xs = xs[:1030]          # quadratic cost: long inputs are cut just beyond 1000 items
     ctx = {k: case[k] for k in ('op', 'km', 'mode', 'data', 'w', 'nk') if k in case}
     items = [(x,) for x in xs] if km else list(xs)
     # split among keys for the grouped mode: key = position % nk
@@ -270,7 +270,7 @@ def case_gen(draw, long_max):
         data = {'kind': 'short', 'xs': draw(st.lists(elems, min_size=draw(st.sampled_from([0, 1, 2, 3, 8])), max_size=12)),
                 'numpy': draw(st.integers(0, 3)) == 0}
     else:
-        data = {'kind': 'long', 'n': draw(st.sampled_from([10, 100, 300, long_max // 2, long_max])), 'off_m': draw(st.sampled_from([0.0, 1.0, -3.0, 7.25])),
+        data = {'kind': 'long', 'n': draw(st.sampled_from([10, 100, 300, 1100, long_max])), 'off_m': draw(st.sampled_from([0.0, 1.0, -3.0, 7.25])),
                 'off_e': draw(st.integers(-6, 9)), 'scale_e': draw(st.integers(-13, 6)),
                 'shape': draw(st.sampled_from(['uniform', 'two-point', 'sorted', 'constant', 'alternating'])), 'seed': draw(st.integers(0, 10 ** 6))}
     mode = draw(st.sampled_from(['plain', 'store', 'grouped', 'windows']))
